@@ -172,6 +172,33 @@ UndefinedBitsIgnored ==
             [] kind = "cmdopt" -> Valid = CmdOptValid(flags & 3, hasShort)
             [] kind = "arg" -> Valid = ArgValid(flags & 503, dflt)                  \* 503 = all defined argument bits
 
+\* what the accessor methods of a constructed object report, as a function of its flag word
+Preds(k, f) ==
+  CASE k = "opt" -> [acceptsValue |-> ~Has(f, NOV), valueRequired |-> Has(f, REQV), valueOptional |-> Has(f, OPTV),
+                     multi |-> Has(f, MULV), required |-> FALSE, optional |-> FALSE,
+                     longPref |-> Has(f, PL), shortPref |-> Has(f, PS)]
+    [] k = "cmdopt" -> [acceptsValue |-> FALSE, valueRequired |-> FALSE, valueOptional |-> FALSE,
+                        multi |-> FALSE, required |-> FALSE, optional |-> FALSE,
+                        longPref |-> Has(f, PL), shortPref |-> Has(f, PS)]
+    [] k = "arg" -> [acceptsValue |-> FALSE, valueRequired |-> FALSE, valueOptional |-> FALSE,
+                     multi |-> Has(f, AMUL), required |-> Has(f, AREQ), optional |-> Has(f, AOPT),
+                     longPref |-> FALSE, shortPref |-> FALSE]
+NoPreds == Preds("cmdopt", 0)
+
+\* the Consistent clauses as a predicate over an observed object
+ConsistentObs(k, f0, d0, nf, dk) ==
+    CASE k = "opt" ->
+           /\ Count(nf, OTypes) = 1 /\ Count(nf, {PL, PS}) = 1
+           /\ (Has(nf, NOV) => ~Has(nf, REQV) /\ ~Has(nf, OPTV) /\ ~Has(nf, MULV) /\ dk = "none")
+           /\ (Has(nf, MULV) => Has(nf, REQV) /\ dk = "list")
+           /\ (Has(nf, NOV) \/ Has(nf, REQV) \/ Has(nf, OPTV))
+           /\ dk = OptDefaultKind(f0, d0)
+      [] k = "cmdopt" -> Count(nf, {PL, PS}) = 1
+      [] k = "arg" ->
+           /\ Count(nf, ATypes) = 1 /\ Count(nf, {AREQ, AOPT}) = 1
+           /\ (Has(nf, AMUL) => dk = "list")
+           /\ dk = ArgDefaultKind(f0, d0)
+
 \* ------------------------------------------------------------------ conversion (utils.string.parse_*)
 \* text = sequence of characters; result = [k |-> "none"|"bool"|"int"|"str"|"float"|"ValueError", ...]
 DigitChars == {"0", "1", "2", "3", "4", "5", "6", "7", "8", "9"}
